@@ -76,6 +76,25 @@ Theorem C14_generated_trend_range : forall x, x <> [] -> trend__range_x (VV x) =
 Proof. exact gen_trend_range. Qed.
 Print Assumptions C14_generated_trend_range.
 
+(** ---- function bodies REGENERATED from the source as glue terms (Gen/ProcessGlue.v), run by the interpreter of Model/GlueFun.v with
+     the leaves of Model/GlueLeaves.v (callees mean their models), are the hand-written models ---- *)
+From TW Require Import Model.GlueLeaves Gen.ProcessGlue Proofs.GlueProcessProofs.
+Open Scope string_scope.
+Theorem C14_glue_trend : forall f x y nrm, x <> [] -> length x = length y ->
+  outcome_arr_pair (call_fun (process_callf f) array_methf no_apply no_pow process_functions "trend"
+     [("x", VArr x); ("y", VArr y); ("fun", VOpaque "fun"); ("normalized", VBoolV nrm)])
+  = Ok (trend f nrm x y).
+Proof. exact glue_trend. Qed.
+Print Assumptions C14_glue_trend.
+
+Theorem C14_glue_normalize : forall a lo hi, a <> [] ->
+  outcome_arr (call_fun (process_callf (fun v => v)) array_methf no_apply no_pow process_functions "normalize"
+     [("a", VArr a); ("min_val", VNum lo); ("max_val", VNum hi)])
+  = Ok (normalize a lo hi).
+Proof. exact glue_normalize. Qed.
+Print Assumptions C14_glue_normalize.
+Close Scope string_scope.
+
 Example C14_example :
   list_eqb Qc_eqb (normalize [qz 2; qz 4; qz 3] (qz 10) (qz 20)) [qz 10; qz 20; qz 15] = true.
 Proof. vm_compute. reflexivity. Qed.
